@@ -5,6 +5,7 @@ import hashlib, json, os, shutil, subprocess, sys, time, fcntl, contextlib
 REPO = os.environ.get("VERIF_REPO", "/repo")
 VERIF = os.path.dirname(os.path.dirname(os.path.abspath(__file__)))
 SCRATCH = os.environ.get("VERIF_SCRATCH", "/var/tmp/stylua-verif")
+OUT = os.environ.get("VERIF_OUT", VERIF)     # where evidence/ and replays/ are written (self-tests against scratch trees redirect it)
 NIGHTLY = os.environ.get("VERIF_NIGHTLY", "nightly")
 FEATURESETS = {
     "default": [],                       # what the baseline tests build (editorconfig only matters for the bin)
@@ -91,10 +92,10 @@ def snapshot():
             for f in tree_files(d):
                 os.utime(f, (now, now))
             open(os.path.join(d, ".complete"), "w").close()
-        # prune: keep the 4 most recent trees
+        # prune: keep the 12 most recent trees (parallel self-tests against scratch worktrees use several at once)
         td = os.path.join(SCRATCH, "trees")
         ents = sorted((os.path.getmtime(os.path.join(td, e)), e) for e in os.listdir(td))
-        for _, e in ents[:-4]:
+        for _, e in ents[:-12]:
             if e != h:
                 shutil.rmtree(os.path.join(td, e), ignore_errors=True)
                 shutil.rmtree(os.path.join(SCRATCH, "mir", e), ignore_errors=True)
@@ -155,6 +156,12 @@ def native_build(featureset="full", release=False, cfg_verif=False):
         if cfg_verif:
             env["RUSTFLAGS"] = "--cfg stylua_verif"
         t0 = time.time()
+        # the target directory is shared between tree copies and cargo does not re-uplift target/<profile>/stylua for a copy whose
+        # fingerprint is still fresh (the binary there would be the one of whichever tree was built last): force this tree's crates
+        # to be rebuilt and relinked
+        now = time.time()
+        for f in tree_files(tree):
+            os.utime(f, (now, now))
         r = subprocess.run(cmd, env=env, capture_output=True, text=True, cwd=tree)
         if r.returncode != 0:
             raise Inconclusive("native build failed: " + r.stderr[-3000:])
@@ -235,7 +242,7 @@ class Report:
             if k["id"] not in [x["id"] for x in self.known_hits]:
                 self.known_hits.append(k)
             return "sat-known"
-        d = os.path.join(VERIF, "replays", self.prop)
+        d = os.path.join(OUT, "replays", self.prop)
         os.makedirs(d, exist_ok=True)
         name = hashlib.sha256(json.dumps(role, sort_keys=True).encode()).hexdigest()[:10]
         p = os.path.join(d, f"{name}.json")
@@ -271,8 +278,8 @@ class Report:
             "wall_s": round(wall, 2),
             "violations": len(self.violations),
         }
-        os.makedirs(os.path.join(VERIF, "evidence"), exist_ok=True)
-        with open(os.path.join(VERIF, "evidence", self.prop + ".json"), "w") as fh:
+        os.makedirs(os.path.join(OUT, "evidence"), exist_ok=True)
+        with open(os.path.join(OUT, "evidence", self.prop + ".json"), "w") as fh:
             json.dump(ev, fh, indent=1, default=str)
         for k in self.known_hits:
             print(f"KNOWN-FINDING: property={self.prop} {k['id']}: {k['what']}")
